@@ -105,6 +105,12 @@ func (t *BaseTraveler) ListMarks() []string {
 // AddMark adds a result to travels state map using `label` as the name
 func (t *BaseTraveler) AddMark(label string, r *DataElement) Traveler {
 	o := BaseTraveler{Marks: map[string]*DataElement{}, Path: make([]DataElementID, len(t.Path))}
+	// marking does not change what the traveler carries
+	o.Count = t.Count
+	o.Render = t.Render
+	o.Selections = t.Selections
+	o.Aggregation = t.Aggregation
+	o.Signal = t.Signal
 	for k, v := range t.Marks {
 		o.Marks[k] = v
 	}
